@@ -251,6 +251,18 @@ class FaultInjector(Controller):
                 return
             self.sql_n += 1
             self.sites.append((j, 'sql', self.sql_n, lab))
+            if self.fault is not None and self.fired is None and self.fault[0] == 'sqlfull' and self.fault[1] == j and self.fault[2] == self.sql_n:
+                # "database or disk is full" in the middle of a transaction: SQLite rolls the whole transaction back by itself
+                # before it reports the error (it does so when a row update cannot be undone statement-wise)
+                self.fired = (j, 'sqlfull', self.sql_n, lab)
+                self.progress_before_fault = self.progress
+                if con is not None and con.in_transaction:
+                    self.busy = True
+                    try:
+                        sqlite3.Connection.execute(con, 'ROLLBACK')
+                    finally:
+                        self.busy = False
+                raise sqlite3.OperationalError('database or disk is full')
             if self.fault is not None and self.fired is None and self.fault[0] == 'sql' and self.fault[1] == j and self.fault[2] == self.sql_n:
                 self.fired = (j, 'sql', self.sql_n, lab)
                 self.progress_before_fault = self.progress
@@ -334,7 +346,7 @@ def run_history(env, case, fault):
 def site_class(inj, case, state):
     if inj.fired is not None:
         j, kind, n, lab = inj.fired
-        return '%s-fault/%s/%s' % (kind, case['ops'][j][0], lab.replace('sql:', '').split()[0] if kind == 'sql' else lab)
+        return '%s-fault/%s/%s' % (kind, case['ops'][j][0], lab.replace('sql:', '').split()[0] if kind in ('sql', 'sqlfull') else lab)
     if state['raised']:
         j, exc = state['raised'][-1]
         op = case['ops'][j]
@@ -367,6 +379,7 @@ cfg_strategy = st.fixed_dictionaries(
 
 
 class FaultedHistories(SubCheck):
+    case_timeout_s = 1800  # one case is a whole batch of runs (every kill point / fault site of a history)
     name = 'faulted_histories'
 
     def examples(self, tier):
@@ -378,7 +391,7 @@ class FaultedHistories(SubCheck):
                 'cfg': cfg_strategy,
                 'ops': st.lists(ops_strategy(), min_size=1, max_size=12 if tier == 'quick' else 16),
                 'pick': st.integers(0, 10**6),
-                'fault_kind': st.sampled_from(['sql', 'sql', 'io', 'rio', 'none']),
+                'fault_kind': st.sampled_from(['sql', 'sql', 'sqlfull', 'io', 'rio', 'none']),
                 'site': st.none(),
             }
         )
@@ -389,6 +402,7 @@ class FaultedHistories(SubCheck):
         inj, state, problems = run_history(env, case, None)
         judge(case, inj, state, problems)
         sites = [(kind, j, n) for (j, kind, n, lab) in inj.sites if not (kind == 'sql' and lab in ('sql:ROLLBACK',))]
+        sites += [('sqlfull', j, n) for (j, kind, n, lab) in inj.sites if kind == 'sql' and lab.split()[0] in ('sql:INSERT', 'sql:UPDATE', 'sql:DELETE')]
         count = 1
         nontrivial_keys = []
         classes = {}
@@ -416,7 +430,7 @@ class FaultedHistories(SubCheck):
                     raise
             if inj2.fired is not None:
                 lab = inj2.fired[3]
-                cls = 'fault=%s/%s' % (site[0], lab.replace('sql:', '').split()[0] if site[0] == 'sql' else lab)
+                cls = 'fault=%s/%s' % (site[0], lab.replace('sql:', '').split()[0] if site[0] in ('sql', 'sqlfull') else lab)
                 classes[cls] = classes.get(cls, 0) + 1
                 if inj2.progress_before_fault >= 1 or state2['aborts'] or state2['rejected']:
                     nontrivial_keys.append('%s/%s/%d/%d' % (h, site[0], site[1], site[2]))
